@@ -24,6 +24,21 @@ class Ctx:
         return self.tier == "thorough"
 
 
+def _diverse(samples, n):
+    """up to n samples, taken round-robin over the rules so that every rule is represented"""
+    by = {}
+    for s_ in samples:
+        by.setdefault(s_.get("rule"), []).append(s_)
+    out = []
+    i = 0
+    while len(out) < n and any(len(v) > i for v in by.values()):
+        for k in sorted(by, key=str):
+            if len(by[k]) > i and len(out) < n:
+                out.append(by[k][i])
+        i += 1
+    return out
+
+
 def write_evidence(pid, tier, seed, res, ctx, wall, extra=None, known_hits=None):
     from . import props
 
@@ -46,7 +61,7 @@ def write_evidence(pid, tier, seed, res, ctx, wall, extra=None, known_hits=None)
         "distinct_nontrivial": len(res.distinct),
         "rule": "one evaluation = one rule instance (a function, call site, table cell or abstract case discovered in the facts); "
         "distinct_nontrivial counts distinct (rule, construct) keys whose check was non-vacuous",
-        "samples": res.samples[:60] if res.samples else [{"note": "no instance sampled"}],
+        "samples": _diverse(res.samples, 60) if res.samples else [{"note": "no instance sampled"}],
         "configs": ctx.configs_used,
         "bodies_analysed": bodies,
         "call_sites": calls,
